@@ -520,11 +520,11 @@ func validTemplate(path string) bool {
 // mux pattern conflict) is left out and reported in skipped.
 func buildContainer(t TableSpec, pr *probe) (c *restful.Container, kept TableSpec, skipped int) {
 	c = restful.NewContainer()
-	if t.Router == 1 {
-		c.Router(restful.RouterJSR311{})
-	} else {
-		c.Router(restful.CurlyRouter{})
+	nroutes := 0
+	for _, sv := range t.Services {
+		nroutes += len(sv.Routes)
 	}
+	setRouter(c, t.Router, nroutes+len(t.Services))
 	kept = TableSpec{Router: t.Router}
 	roots := map[string]bool{}
 	for _, sv0 := range t.Services {
